@@ -79,6 +79,9 @@ def one_case(ctx, base, i, e, mode, terms, keep):
         for (j, st, obs) in r["recover"]:
             if not ir.healed(obs[-1]) and not (obs[-1]["dst_row"] is not None and obs[-1]["dst_row"][0] == "Y" and obs[-1]["dst_row"][1] == "M" and obs[-1]["dst_disk"] == "good" and obs[-1]["req"] != "pending"):
                 ctx.fail("C09:not-recovered", f"{'uninterrupted' if j is None else f'killed at call {j}'}: three fault-free rounds later the transfer has not healed: {obs[-1]}", {**rp, "crash_at": j})
+            if j is not None and obs[-1]["ph"]:
+                ctx.fail("C09:stale-placeholder", f"killed at call {j}: three fault-free rounds after the restart the placeholder of the interrupted transfer is still beside the file "
+                         f"(an uninterrupted transfer leaves none; the restarted daemon's first idle update removes it): {obs[-1]}", {**rp, "crash_at": j})
     row = i["dst_row"]
     if safe(i) and row is not None and row[1] == "N" and row[0] != "N" and i["req"] != "pending" and e["dst_usable"] and e["del_ok"]:
         for (j, st, obs) in r["recover"]:
@@ -92,7 +95,7 @@ def one_case(ctx, base, i, e, mode, terms, keep):
     terms.append(ir.trace_term(i, e, mode, r["trace"]))
     keep.append(("crash states", i, e, mode))
     for (j, st, obs) in r["recover"]:
-        terms.append(ir.rounds_term(e, st, obs))
+        terms.append(ir.rounds_term(e, st, obs) if j is not None else ir.rounds_on_term(e, mode, i, obs))
         keep.append(("rounds after crash", j, st, e, mode, i))
     return r
 
